@@ -195,6 +195,160 @@ def module_table(tree):
     return {q: sorted(role_table(fn)) for q, fn in outer_functions(tree)}
 
 
+
+# ---------------------------------------------------------------------------
+# un-aliasing of locals that the recorded tree does not have
+# ---------------------------------------------------------------------------
+def _pure(e, depth=0):
+    """Expressions that may be substituted for a single-assignment local: name
+    and attribute chains, constants, constant subscripts, zero-argument method
+    calls on a chain (getters) and getattr() with constant arguments."""
+    if depth > 6:
+        return False
+    if isinstance(e, (ast.Name, ast.Constant)):
+        return True
+    if isinstance(e, ast.Attribute):
+        return _pure(e.value, depth + 1)
+    if isinstance(e, ast.Subscript):
+        return _pure(e.value, depth + 1) and isinstance(e.slice, ast.Constant)
+    if isinstance(e, ast.Call):
+        if isinstance(e.func, ast.Attribute) and not e.args and \
+                not e.keywords:
+            return _pure(e.func.value, depth + 1)
+        if isinstance(e.func, ast.Name) and e.func.id == 'getattr' and \
+                e.args and _pure(e.args[0], depth + 1) and all(
+                isinstance(a, ast.Constant) for a in e.args[1:]):
+            return True
+    return False
+
+
+class _Subst(ast.NodeTransformer):
+    def __init__(self, name, expr):
+        self.name, self.expr = name, expr
+        self.n = 0
+
+    def visit_Name(self, n):
+        if n.id == self.name and isinstance(n.ctx, ast.Load):
+            self.n += 1
+            return ast.copy_location(copy.deepcopy(self.expr), n)
+        return n
+
+
+def _chained_alias(fn, name, lst, bs):
+    """``x = obj.attr = value`` (x bound only there): x aliases obj.attr until
+    either is re-bound; substitute and drop x from the targets."""
+    if len(lst) != 1 or lst[0][1] != 'assign' or lst[0][3] != '':
+        return False
+    expr = lst[0][2]
+    stmt = None
+    for n in ast.walk(fn):
+        if isinstance(n, ast.Assign) and n.value is expr and \
+                len(n.targets) >= 2:
+            stmt = n
+    if stmt is None:
+        return False
+    mine = [t for t in stmt.targets if isinstance(t, ast.Name) and
+            t.id == name]
+    chains = [t for t in stmt.targets if isinstance(t, ast.Attribute) and
+              _pure(t)]
+    if len(mine) != 1 or not chains:
+        return False
+    chain = chains[0]
+    uses = [n for n in ast.walk(fn) if isinstance(n, ast.Name) and
+            n.id == name and isinstance(n.ctx, ast.Load)]
+    if any(u.lineno <= stmt.lineno for u in uses):
+        return False
+    last = max([u.lineno for u in uses] or [stmt.lineno])
+    roots = {n.id for n in ast.walk(chain) if isinstance(n, ast.Name)}
+    for b in bs:
+        if b[0] in roots and stmt.lineno < b[4] <= last:
+            return False
+    text = ast.unparse(chain)
+    for n in ast.walk(fn):
+        if isinstance(n, (ast.Assign, ast.AugAssign)) and n is not stmt and \
+                stmt.lineno < n.lineno < last:
+            tg = n.targets if isinstance(n, ast.Assign) else [n.target]
+            if any(ast.unparse(t) == text for t in tg):
+                return False
+    load = copy.deepcopy(chain)
+    for n in ast.walk(load):
+        if hasattr(n, 'ctx'):
+            n.ctx = ast.Load()
+    _Subst(name, load).visit(fn)
+    stmt.targets = [t for t in stmt.targets if t is not mine[0]]
+    return True
+
+
+def unalias(fn, known_names, wanted=None):
+    """Substitute, in place, every local of fn that (a) is not one of
+    ``known_names`` (the locals recorded for this function), (b) is bound
+    exactly once, by a plain ``x = <pure expression>``, and (c) whose
+    expression's root names are not re-bound while it is live.  Returns the
+    number of locals removed."""
+    params = _params(fn)
+    removed = 0
+    for _ in range(24):         # aliases of aliases
+        bs = bindings(fn)
+        by = {}
+        for b in bs:
+            by.setdefault(b[0], []).append(b)
+        if wanted is not None:
+            # recomputed every round: removing one alias can give another
+            # local its recorded role back
+            known_names = {nm for s_, i_, nm in role_table(fn)
+                           if (s_, i_) in wanted}
+        done = False
+        for name, lst in sorted(by.items(),
+                                key=lambda kv: min(b[4] for b in kv[1])):
+            if name in known_names or name in params or \
+                    name == '__dropped':
+                continue
+            if len(lst) != 1:
+                if _chained_alias(fn, name, lst, bs):
+                    removed += 1
+                    done = True
+                    break
+                continue
+            if _chained_alias(fn, name, lst, bs):
+                removed += 1
+                done = True
+                break
+            nm, kind, expr, extra, ln = lst[0]
+            if kind != 'assign' or extra != '' or not _pure(expr):
+                continue
+            # locate the statement
+            stmt = None
+            for n in ast.walk(fn):
+                if isinstance(n, ast.Assign) and n.value is expr and \
+                        len(n.targets) == 1 and isinstance(
+                        n.targets[0], ast.Name):
+                    stmt = n
+            if stmt is None:
+                continue
+            uses = [n for n in ast.walk(fn) if isinstance(n, ast.Name) and
+                    n.id == name and isinstance(n.ctx, ast.Load)]
+            if any(u.lineno < stmt.lineno for u in uses):
+                continue
+            last = max([u.lineno for u in uses] or [stmt.lineno])
+            roots = {n.id for n in ast.walk(expr) if isinstance(n, ast.Name)}
+            rebound = False
+            for b in bs:
+                if b[0] in roots and stmt.lineno < b[4] <= last:
+                    rebound = True
+            if rebound or name in roots:
+                continue
+            _Subst(name, expr).visit(fn)
+            # the binding statement becomes a no-op
+            stmt.targets = [ast.Name(id='__dropped', ctx=ast.Store())]
+            stmt.value = ast.Constant(value=None)
+            removed += 1
+            done = True
+            break
+        if not done:
+            break
+    return removed
+
+
 class _Rename(ast.NodeTransformer):
     def __init__(self, mapping):
         self.m = mapping
@@ -222,6 +376,20 @@ def normalise(tree, relpath):
     count = 0
     for q, fn in outer_functions(tree):
         want = base.get(q)
+        if want is None and q in (base.get('__functions__') or ()):
+            want = []
+        if want is None:
+            continue
+        # locals the recorded tree does not have and that merely alias a
+        # pure expression are substituted away first
+        known = {nm for s, i, nm in want}
+        cur_names = {nm for s, i, nm in role_table(fn)}
+        if cur_names - known:
+            cur_sigs = {(s, i) for s, i, nm in role_table(fn)}
+            wanted = {(s, i) for s, i, nm in want}
+            # names whose role is recorded keep their variable
+            keep = {nm for s, i, nm in role_table(fn) if (s, i) in wanted}
+            count += unalias(fn, keep, wanted)
         if not want:
             continue
         want = {(s, i): nm for s, i, nm in want}
